@@ -16,9 +16,8 @@ import (
 	"verif/harness/spec"
 )
 
-// A listener that has heard NOTHING for longer than any time constant in the library's source (a poll / keep-alive period
-// would be one; capped at 40 s quick, 11 min thorough, at least 2.5 s) is then sent one event and stopped: the event is
-// delivered, Listen returns nil, and the race detector - this binary is built with -race - sees the shutdown. Runs
+// A listener receives one event and then hears NOTHING for longer than any time constant in the library's source (a poll /
+// keep-alive period would be one; capped at 40 s quick, 11 min thorough, at least 2.5 s) and is then stopped: Listen returns nil, and the race detector - this binary is built with -race - sees the shutdown. Runs
 // alongside the batches.
 type idleListener struct {
 	events chan uint32
@@ -61,25 +60,39 @@ func startIdleListener() chan string {
 		done := make(chan error, 1)
 		go func() { done <- u.Listen(l, q) }()
 		idle := idleFor()
-		time.Sleep(idle)
+		// one event FIRST (delivered while the listener is young), then silence, then the stop signal straight out of the
+		// silence: nothing that the harness does orders the listener's idle-time activity before the shutdown
 		e := make([]byte, 64)
 		spec.Header(e, 0x17, 0x20, 405419896)
 		spec.PutLE32(e[8:], 4711)
 		e[12] = 1
-		if c, err := net.DialUDP("udp4", nil, &net.UDPAddr{IP: net.IPv4(127, 0, 0, 1), Port: int(port)}); err == nil {
-			c.Write(e)
-			c.Close()
-		}
 		msg := ""
-		select {
-		case ix := <-l.events:
-			if ix != 4711 {
-				msg = fmt.Sprintf("after %v of silence the listener delivered event %d, 4711 was sent", idle, ix)
+		delivered := false
+		for try := 0; try < 100 && !delivered; try++ {
+			if c, err := net.DialUDP("udp4", nil, &net.UDPAddr{IP: net.IPv4(127, 0, 0, 1), Port: int(port)}); err == nil {
+				c.Write(e)
+				c.Close()
 			}
+			select {
+			case ix := <-l.events:
+				delivered = true
+				if ix != 4711 {
+					msg = fmt.Sprintf("the listener delivered event %d, 4711 was sent", ix)
+				}
+			case err := <-done:
+				msg = fmt.Sprintf("Listen returned (%v) on its own", err)
+				delivered = true
+			case <-time.After(50 * time.Millisecond):
+			}
+		}
+		if !delivered {
+			msg = "an event was not delivered within 5 s"
+		}
+		time.Sleep(idle)
+		select {
 		case err := <-done:
 			msg = fmt.Sprintf("Listen returned (%v) on its own after %v of silence", err, idle)
-		case <-time.After(5 * time.Second):
-			msg = fmt.Sprintf("an event sent after %v of silence was not delivered within 5 s", idle)
+		default:
 		}
 		q <- os.Interrupt
 		if msg == "" {
